@@ -52,6 +52,7 @@ import (
 	"errors"
 	"iter"
 	"log/slog"
+	"maps"
 	"net/http"
 	"time"
 
@@ -301,24 +302,38 @@ func (r *transport) handleCacheHit(
 	respNoCacheFieldsRaw, hasRespNoCache := ccResp.NoCache()
 	respNoCacheFieldsSeq, isRespNoCacheQualified := respNoCacheFieldsRaw.Value()
 
-	// RFC 8246: If response is fresh and immutable, always serve from cache unless request has no-cache
-	if !freshness.IsStale && ccResp.Immutable() && !ccReq.NoCache() {
-		return r.serveFromCache(
-			req,
-			urlKey,
-			stored,
-			freshness,
-			isRespNoCacheQualified,
-			respNoCacheFieldsSeq,
-		)
+	// The stored response's own freshness and age, without the request
+	// directives that relax (max-stale) or tighten (max-age) them.
+	own := freshness
+	reqMaxAge, hasReqMaxAge := ccReq.MaxAge()
+	if _, hasMaxStale := ccReq.MaxStale(); hasMaxStale || hasReqMaxAge {
+		ccOwn := maps.Clone(ccReq)
+		delete(ccOwn, "max-stale")
+		delete(ccOwn, "max-age")
+		own = r.fc.CalculateFreshness(stored, ccOwn, ccResp)
+		if hasReqMaxAge && reqMaxAge == 0 {
+			freshness.Age = own.Age // the real age, for the Age header and the stale-if-error window
+		}
 	}
+	reqMaxAgeExceeded := hasReqMaxAge &&
+		own.Age.Value+r.clock.Since(own.Age.Timestamp) > reqMaxAge
 
-	if (freshness.IsStale && ccResp.MustRevalidate()) ||
-		(hasRespNoCache && !isRespNoCacheQualified) { // Unqualified no-cache: must revalidate before serving from cache
+	// Cases in which the stored response must not be used without successful
+	// validation: request no-cache (RFC 9111 §5.2.1.4) or a request max-age it
+	// exceeds (§5.2.1.1), unqualified response no-cache (§5.2.2.4), stale with
+	// must-revalidate (§5.2.2.2). Neither max-stale, immutable,
+	// stale-while-revalidate nor only-if-cached overrides these.
+	if ccReq.NoCache() || reqMaxAgeExceeded ||
+		(hasRespNoCache && !isRespNoCacheQualified) ||
+		(own.IsStale && ccResp.MustRevalidate()) {
+		if ccReq.OnlyIfCached() {
+			// RFC 9111 §5.2.1.7: no usable stored response and the network is off limits.
+			return make504Response(req)
+		}
 		goto revalidate
 	}
 
-	if ccReq.OnlyIfCached() || (!freshness.IsStale && !ccReq.NoCache()) {
+	if ccReq.OnlyIfCached() || !freshness.IsStale {
 		return r.serveFromCache(
 			req,
 			urlKey,
